@@ -141,3 +141,270 @@ theorem wlits_enc (minW : Int) (l : List (Int × Int)) (hlen : l.length ≤ U32M
   simp only [h1, bind, Except.bind, pure, Except.pure]
   exact ⟨a1, rfl, hr1⟩
 end PotasscoVerif.AspifRT
+
+namespace PotasscoVerif.AspifRT
+open PotasscoVerif PotasscoVerif.AspifOut PotasscoVerif.AspifIn PotasscoVerif.CharStream PotasscoVerif.Decimal
+open PotasscoVerif.BufferedStream (isWs isDigit I64MAX)
+
+theorem get_plain (a : AS) (c : Nat) (r : List Nat) (h : a.rest = c :: r) (h0 : c ≠ 0) (h13 : c ≠ 13) (h10 : c ≠ 10) :
+    a.get = (c, { rest := r, line := a.line, canUnget := true }) := by
+  unfold AS.get; rw [h]; simp [h0, h13, h10]
+
+theorem takeWhile_nonul (s k : List Nat) (h : ∀ c ∈ s, c ≠ 0) : ((s ++ k).takeWhile (· != 0)).take s.length = s := by
+  induction s with
+  | nil => simp
+  | cons c r ih =>
+    have hc : (c != 0) = true := by simpa using h c (by simp)
+    simp only [List.cons_append, List.takeWhile_cons, hc, ↓reduceIte, List.length_cons, List.take_succ_cons]
+    rw [ih (fun x hx => h x (by simp [hx]))]
+
+/-- ` <len> <bytes>` is read by `matchString` as the bytes (any bytes but NUL: blanks, newlines, digits, …) -/
+theorem string_enc (s : List Nat) (hlen : s.length ≤ U32MAX) (hn : ∀ c ∈ s, c ≠ 0) (a : AS) (k : List Nat) (hr : a.rest = addStr s ++ k) :
+    ∃ a', AspifIn.string a = .ok (s, a') ∧ a'.rest = k := by
+  obtain ⟨a1, h1, hr1⟩ := pos_addN s.length hlen a (sp ++ s ++ k) (by simpa [addStr] using hr)
+    (by intro c r e; simp [sp] at e; exact Or.inl e.1.symm)
+  have hg := get_plain a1 32 (s ++ k) (by simpa [sp] using hr1) (by decide) (by decide) (by decide)
+  unfold AspifIn.string
+  simp only [h1, bind, Except.bind, hg]
+  unfold AS.copy
+  simp only
+  rw [takeWhile_nonul s k hn]
+  simp only [beq_self_eq_true, ↓reduceIte, List.drop_left']
+  exact ⟨_, rfl, by simp⟩
+
+/-- writer-side well-formedness of a call: what `AspifOutput` may be given so that the text is valid aspif -/
+def atomOk (a : Nat) : Prop := 1 ≤ a ∧ a ≤ 2147483647
+def litOk (l : Int) : Prop := l ≠ 0 ∧ l.natAbs ≤ 2147483647
+def i32 (x : Int) : Prop := -2147483648 ≤ x ∧ x ≤ 2147483647
+def lenOk {α : Type} (l : List α) : Prop := l.length ≤ U32MAX
+
+def WFw : Call → Prop
+  | .rule ht head body => ht ≤ 1 ∧ lenOk head ∧ (∀ a ∈ head, atomOk a) ∧ lenOk body ∧ (∀ l ∈ body, litOk l)
+  | .sumRule ht head b ws => ht ≤ 1 ∧ lenOk head ∧ (∀ a ∈ head, atomOk a) ∧ i32 b ∧ lenOk ws ∧ (∀ p ∈ ws, litOk p.1 ∧ 0 ≤ p.2 ∧ p.2 ≤ 2147483647)
+  | .minimize p ws => i32 p ∧ lenOk ws ∧ (∀ q ∈ ws, litOk q.1 ∧ i32 q.2)
+  | .project atoms => lenOk atoms ∧ ∀ a ∈ atoms, atomOk a
+  | .output s c => lenOk s ∧ (∀ x ∈ s, x ≠ 0) ∧ lenOk c ∧ ∀ l ∈ c, litOk l
+  | .external a v => atomOk a ∧ v ≤ 3
+  | .assume ls => lenOk ls ∧ ∀ l ∈ ls, litOk l
+  | .heuristic a t b p c => atomOk a ∧ t ≤ 5 ∧ i32 b ∧ p ≤ 2147483647 ∧ lenOk c ∧ ∀ l ∈ c, litOk l
+  | .acycEdge s t c => (0 ≤ s ∧ s ≤ 2147483647) ∧ (0 ≤ t ∧ t ≤ 2147483647) ∧ lenOk c ∧ ∀ l ∈ c, litOk l
+  | .theoryNum id n => id ≤ U32MAX ∧ i32 n
+  | .theorySym id s => id ≤ U32MAX ∧ lenOk s ∧ ∀ x ∈ s, x ≠ 0
+  | .theoryCompound id t args => id ≤ U32MAX ∧ (-3 ≤ t ∧ t ≤ 2147483647) ∧ lenOk args ∧ ∀ x ∈ args, x ≤ U32MAX
+  | .theoryElement id ts c => id ≤ U32MAX ∧ lenOk ts ∧ (∀ x ∈ ts, x ≤ U32MAX) ∧ lenOk c ∧ ∀ l ∈ c, litOk l
+  | .theoryAtom a t es g => a ≤ U32MAX ∧ t ≤ U32MAX ∧ lenOk es ∧ (∀ x ∈ es, x ≤ U32MAX) ∧ (∀ p, g = some p → p.1 ≤ U32MAX ∧ p.2 ≤ U32MAX)
+  | _ => True
+
+/-- the permitted difference of a round trip: literals of weight 0 are not delivered -/
+def norm : Call → Call
+  | .sumRule ht head b ws => .sumRule ht head b (ws.filter (fun p => p.2 ≠ 0))
+  | .minimize p ws => .minimize p (ws.filter (fun p => p.2 ≠ 0))
+  | c => c
+end PotasscoVerif.AspifRT
+
+namespace PotasscoVerif.AspifRT
+open PotasscoVerif PotasscoVerif.AspifOut PotasscoVerif.AspifIn PotasscoVerif.CharStream PotasscoVerif.Decimal
+open PotasscoVerif.BufferedStream (isWs isDigit I64MAX)
+
+/-- the fields of a directive as written, without the leading directive number and the final newline -/
+def fields : Call → List Nat
+  | .rule ht head body => addN ht ++ addNats head ++ addI Gen.Body_t_Normal ++ addLits body
+  | .sumRule ht head bound body => addN ht ++ addNats head ++ addI Gen.Body_t_Sum ++ addI bound ++ addWLits body
+  | .minimize prio lits => addI prio ++ addWLits lits
+  | .project atoms => addNats atoms
+  | .output name cond => addStr name ++ addLits cond
+  | .external a v => addN a ++ addN v
+  | .assume lits => addLits lits
+  | .heuristic a t bias prio cond => addN t ++ addN a ++ addI bias ++ addN prio ++ addLits cond
+  | .acycEdge s t cond => addI s ++ addI t ++ addLits cond
+  | .theoryNum id n => addI Gen.Theory_t_Number ++ addN id ++ addI n
+  | .theorySym id name => addI Gen.Theory_t_Symbol ++ addN id ++ addStr name
+  | .theoryCompound id c args => addI Gen.Theory_t_Compound ++ addN id ++ addI c ++ addNats args
+  | .theoryElement id terms cond => addI Gen.Theory_t_Element ++ addN id ++ addNats terms ++ addLits cond
+  | .theoryAtom a t elems none => addI Gen.Theory_t_Atom ++ addN a ++ addN t ++ addNats elems
+  | .theoryAtom a t elems (some (op, rhs)) => addI Gen.Theory_t_AtomWithGuard ++ addN a ++ addN t ++ addNats elems ++ addN op ++ addN rhs
+  | _ => []
+
+def dirCode : Call → Int
+  | .rule .. | .sumRule .. => Gen.Directive_t_Rule
+  | .minimize .. => Gen.Directive_t_Minimize
+  | .project .. => Gen.Directive_t_Project
+  | .output .. => Gen.Directive_t_Output
+  | .external .. => Gen.Directive_t_External
+  | .assume .. => Gen.Directive_t_Assume
+  | .heuristic .. => Gen.Directive_t_Heuristic
+  | .acycEdge .. => Gen.Directive_t_Edge
+  | .theoryNum .. | .theorySym .. | .theoryCompound .. | .theoryElement .. | .theoryAtom .. => Gen.Directive_t_Theory
+  | _ => 0
+
+def isDirective : Call → Bool
+  | .initProgram _ | .beginStep | .endStep => false
+  | _ => true
+
+theorem writeCall_fields (c : Call) (h : isDirective c = true) : writeCall c = dir (dirCode c) ++ fields c ++ nl := by
+  cases c with
+  | theoryAtom a t es g => cases g with
+    | none => simp [writeCall, fields, dirCode]
+    | some p => obtain ⟨op, rhs⟩ := p; simp [writeCall, fields, dirCode]
+  | initProgram _ => cases h
+  | beginStep => cases h
+  | endStep => cases h
+  | _ => simp [writeCall, fields, dirCode]
+
+theorem directive_rule_rt (ht : Nat) (head : List Nat) (body : List Int) (hw : WFw (.rule ht head body)) (a : AS) (k : List Nat)
+    (hr : a.rest = fields (.rule ht head body) ++ (nl ++ k)) :
+    ∃ a', directive (N Gen.Directive_t_Rule) a = .ok (some (.rule ht head body), a') ∧ a'.rest = nl ++ k := by
+  obtain ⟨hht, hlh, hh, hlb, hb⟩ := hw
+  simp only [fields, List.append_assoc] at hr
+  obtain ⟨a1, h1, r1⟩ := posMax_addN (N Gen.Head_t_eMax) ht hht (by decide) a _ hr (by simp only [addNats, List.append_assoc]; exact sp_addN _ _)
+  obtain ⟨a2, h2, r2⟩ := atoms_enc head hlh hh a1 _ r1 (sp_addI _ _)
+  have e0 : addI Gen.Body_t_Normal = addN 0 := by simp [addN_eq, Gen.Body_t_Normal]
+  obtain ⟨a3, h3, r3⟩ := posMax_addN (N Gen.Body_t_eMax) 0 (by decide) (by decide) a2 (addLits body ++ (nl ++ k)) (by rw [r2, e0])
+    (by unfold addLits; rw [List.append_assoc]; exact sp_addN _ _)
+  obtain ⟨a4, h4, r4⟩ := lits_enc body hlb hb a3 _ r3 (sp_nl _)
+  refine ⟨a4, ?_, r4⟩
+  unfold directive
+  simp only [↓reduceIte, h1, h2, h3, h4, bind, Except.bind, pure, Except.pure]
+  rfl
+
+theorem i32_range {v : Int} (h : i32 v) : I32MIN ≤ v ∧ v ≤ I32MAX := by
+  have e1 : I32MIN = -2147483648 := rfl
+  have e2 : I32MAX = 2147483647 := rfl
+  unfold i32 at h; omega
+
+theorem i64_of_i32 {v : Int} (h : i32 v) : v.natAbs ≤ I64MAX := by
+  have : I64MAX = 9223372036854775807 := rfl
+  unfold i32 at h; omega
+
+theorem directive_sum_rt (ht : Nat) (head : List Nat) (b : Int) (ws : List (Int × Int)) (hw : WFw (.sumRule ht head b ws)) (a : AS) (k : List Nat)
+    (hr : a.rest = fields (.sumRule ht head b ws) ++ (nl ++ k)) :
+    ∃ a', directive (N Gen.Directive_t_Rule) a = .ok (some (norm (.sumRule ht head b ws)), a') ∧ a'.rest = nl ++ k := by
+  obtain ⟨hht, hlh, hh, hb, hlw, hws⟩ := hw
+  simp only [fields, List.append_assoc] at hr
+  obtain ⟨a1, h1, r1⟩ := posMax_addN (N Gen.Head_t_eMax) ht hht (by decide) a _ hr (by simp only [addNats, List.append_assoc]; exact sp_addN _ _)
+  obtain ⟨a2, h2, r2⟩ := atoms_enc head hlh hh a1 _ r1 (sp_addI _ _)
+  have e1 : addI Gen.Body_t_Sum = addN 1 := by simp [addN_eq, Gen.Body_t_Sum]
+  obtain ⟨a3, h3, r3⟩ := posMax_addN (N Gen.Body_t_eMax) 1 (by decide) (by decide) a2 (addI b ++ (addWLits ws ++ (nl ++ k))) (by rw [r2, e1]) (sp_addI _ _)
+  obtain ⟨a4, h4, r4⟩ := intIn_addI I32MIN I32MAX b (i32_range hb) (i64_of_i32 hb) a3 (addWLits ws ++ (nl ++ k)) r3
+    (by unfold addWLits; rw [List.append_assoc]; exact sp_addN _ _)
+  obtain ⟨a5, h5, r5⟩ := wlits_enc 0 ws hlw (fun p hp => ⟨(hws p hp).1, (hws p hp).2.1, (hws p hp).2.2, by have := (hws p hp).2.1; omega⟩) a4 _ r4 (sp_nl _)
+  refine ⟨a5, ?_, r5⟩
+  unfold directive
+  have hne : ¬ ((1 : Nat) = N Gen.Body_t_Normal) := by decide
+  simp only [↓reduceIte, h1, h2, h3, h4, h5, bind, Except.bind, pure, Except.pure, hne, norm]
+
+theorem directive_minimize_rt (p : Int) (ws : List (Int × Int)) (hw : WFw (.minimize p ws)) (a : AS) (k : List Nat)
+    (hr : a.rest = fields (.minimize p ws) ++ (nl ++ k)) :
+    ∃ a', directive (N Gen.Directive_t_Minimize) a = .ok (some (norm (.minimize p ws)), a') ∧ a'.rest = nl ++ k := by
+  obtain ⟨hp, hlw, hws⟩ := hw
+  simp only [fields, List.append_assoc] at hr
+  obtain ⟨a1, h1, r1⟩ := intIn_addI I32MIN I32MAX p (i32_range hp) (i64_of_i32 hp) a (addWLits ws ++ (nl ++ k)) hr
+    (by unfold addWLits; rw [List.append_assoc]; exact sp_addN _ _)
+  have e1 : I32MIN = -2147483648 := rfl
+  obtain ⟨a2, h2, r2⟩ := wlits_enc I32MIN ws hlw (fun q hq => ⟨(hws q hq).1, by have := (hws q hq).2; unfold i32 at this; omega, by have := (hws q hq).2; unfold i32 at this; omega,
+    by have := (hws q hq).2; unfold i32 at this; omega⟩) a1 _ r1 (sp_nl _)
+  refine ⟨a2, ?_, r2⟩
+  unfold directive
+  have n1 : ¬ (N Gen.Directive_t_Minimize = N Gen.Directive_t_Rule) := by decide
+  simp only [↓reduceIte, n1, h1, h2, bind, Except.bind, pure, Except.pure, norm]
+
+theorem directive_project_rt (atoms0 : List Nat) (hw : WFw (.project atoms0)) (a : AS) (k : List Nat)
+    (hr : a.rest = fields (.project atoms0) ++ (nl ++ k)) :
+    ∃ a', directive (N Gen.Directive_t_Project) a = .ok (some (.project atoms0), a') ∧ a'.rest = nl ++ k := by
+  obtain ⟨hl, hh⟩ := hw
+  simp only [fields] at hr
+  obtain ⟨a1, h1, r1⟩ := atoms_enc atoms0 hl hh a _ hr (sp_nl _)
+  refine ⟨a1, ?_, r1⟩
+  unfold directive
+  have n1 : ¬ (N Gen.Directive_t_Project = N Gen.Directive_t_Rule) := by decide
+  have n2 : ¬ (N Gen.Directive_t_Project = N Gen.Directive_t_Minimize) := by decide
+  simp only [↓reduceIte, n1, n2, h1, bind, Except.bind, pure, Except.pure]
+
+theorem directive_output_rt (str : List Nat) (cond : List Int) (hw : WFw (.output str cond)) (a : AS) (k : List Nat)
+    (hr : a.rest = fields (.output str cond) ++ (nl ++ k)) :
+    ∃ a', directive (N Gen.Directive_t_Output) a = .ok (some (.output str cond), a') ∧ a'.rest = nl ++ k := by
+  obtain ⟨hls, hn, hlc, hc⟩ := hw
+  simp only [fields, List.append_assoc] at hr
+  obtain ⟨a1, h1, r1⟩ := string_enc str hls hn a _ hr
+  obtain ⟨a2, h2, r2⟩ := lits_enc cond hlc hc a1 _ r1 (sp_nl _)
+  refine ⟨a2, ?_, r2⟩
+  unfold directive
+  have n1 : ¬ (N Gen.Directive_t_Output = N Gen.Directive_t_Rule) := by decide
+  have n2 : ¬ (N Gen.Directive_t_Output = N Gen.Directive_t_Minimize) := by decide
+  have n3 : ¬ (N Gen.Directive_t_Output = N Gen.Directive_t_Project) := by decide
+  simp only [↓reduceIte, n1, n2, n3, h1, h2, bind, Except.bind, pure, Except.pure]
+
+theorem directive_external_rt (x v : Nat) (hw : WFw (.external x v)) (a : AS) (k : List Nat)
+    (hr : a.rest = fields (.external x v) ++ (nl ++ k)) :
+    ∃ a', directive (N Gen.Directive_t_External) a = .ok (some (.external x v), a') ∧ a'.rest = nl ++ k := by
+  obtain ⟨hx, hv⟩ := hw
+  simp only [fields, List.append_assoc] at hr
+  obtain ⟨a1, h1, r1⟩ := atom_addN x hx a _ hr (sp_addN _ _)
+  obtain ⟨a2, h2, r2⟩ := posMax_addN (N Gen.Value_t_eMax) v hv (by decide) a1 _ r1 (sp_nl _)
+  refine ⟨a2, ?_, r2⟩
+  unfold directive
+  have n1 : ¬ (N Gen.Directive_t_External = N Gen.Directive_t_Rule) := by decide
+  have n2 : ¬ (N Gen.Directive_t_External = N Gen.Directive_t_Minimize) := by decide
+  have n3 : ¬ (N Gen.Directive_t_External = N Gen.Directive_t_Project) := by decide
+  have n4 : ¬ (N Gen.Directive_t_External = N Gen.Directive_t_Output) := by decide
+  simp only [↓reduceIte, n1, n2, n3, n4, h1, h2, bind, Except.bind, pure, Except.pure]
+
+theorem directive_assume_rt (ls : List Int) (hw : WFw (.assume ls)) (a : AS) (k : List Nat)
+    (hr : a.rest = fields (.assume ls) ++ (nl ++ k)) :
+    ∃ a', directive (N Gen.Directive_t_Assume) a = .ok (some (.assume ls), a') ∧ a'.rest = nl ++ k := by
+  obtain ⟨hl, hh⟩ := hw
+  simp only [fields] at hr
+  obtain ⟨a1, h1, r1⟩ := lits_enc ls hl hh a _ hr (sp_nl _)
+  refine ⟨a1, ?_, r1⟩
+  unfold directive
+  have n1 : ¬ (N Gen.Directive_t_Assume = N Gen.Directive_t_Rule) := by decide
+  have n2 : ¬ (N Gen.Directive_t_Assume = N Gen.Directive_t_Minimize) := by decide
+  have n3 : ¬ (N Gen.Directive_t_Assume = N Gen.Directive_t_Project) := by decide
+  have n4 : ¬ (N Gen.Directive_t_Assume = N Gen.Directive_t_Output) := by decide
+  have n5 : ¬ (N Gen.Directive_t_Assume = N Gen.Directive_t_External) := by decide
+  simp only [↓reduceIte, n1, n2, n3, n4, n5, h1, bind, Except.bind, pure, Except.pure]
+
+theorem directive_heuristic_rt (x t : Nat) (bias : Int) (prio : Nat) (cond : List Int) (hw : WFw (.heuristic x t bias prio cond)) (a : AS) (k : List Nat)
+    (hr : a.rest = fields (.heuristic x t bias prio cond) ++ (nl ++ k)) :
+    ∃ a', directive (N Gen.Directive_t_Heuristic) a = .ok (some (.heuristic x t bias prio cond), a') ∧ a'.rest = nl ++ k := by
+  obtain ⟨hx, ht, hb, hp, hlc, hc⟩ := hw
+  simp only [fields, List.append_assoc] at hr
+  obtain ⟨a1, h1, r1⟩ := posMax_addN (N Gen.Heuristic_t_eMax) t ht (by decide) a _ hr (sp_addN _ _)
+  obtain ⟨a2, h2, r2⟩ := atom_addN x hx a1 _ r1 (sp_addI _ _)
+  obtain ⟨a3, h3, r3⟩ := intIn_addI I32MIN I32MAX bias (i32_range hb) (i64_of_i32 hb) a2 _ r2 (sp_addN _ _)
+  obtain ⟨a4, h4, r4⟩ := posMax_addN (N I32MAX) prio hp (by decide) a3 (addLits cond ++ (nl ++ k)) r3 (by unfold addLits; rw [List.append_assoc]; exact sp_addN _ _)
+  obtain ⟨a5, h5, r5⟩ := lits_enc cond hlc hc a4 _ r4 (sp_nl _)
+  refine ⟨a5, ?_, r5⟩
+  unfold directive
+  have n1 : ¬ (N Gen.Directive_t_Heuristic = N Gen.Directive_t_Rule) := by decide
+  have n2 : ¬ (N Gen.Directive_t_Heuristic = N Gen.Directive_t_Minimize) := by decide
+  have n3 : ¬ (N Gen.Directive_t_Heuristic = N Gen.Directive_t_Project) := by decide
+  have n4 : ¬ (N Gen.Directive_t_Heuristic = N Gen.Directive_t_Output) := by decide
+  have n5 : ¬ (N Gen.Directive_t_Heuristic = N Gen.Directive_t_External) := by decide
+  have n6 : ¬ (N Gen.Directive_t_Heuristic = N Gen.Directive_t_Assume) := by decide
+  simp only [↓reduceIte, n1, n2, n3, n4, n5, n6, h1, h2, h3, h4, h5, bind, Except.bind, pure, Except.pure]
+
+theorem directive_edge_rt (s0 t0 : Int) (cond : List Int) (hw : WFw (.acycEdge s0 t0 cond)) (a : AS) (k : List Nat)
+    (hr : a.rest = fields (.acycEdge s0 t0 cond) ++ (nl ++ k)) :
+    ∃ a', directive (N Gen.Directive_t_Edge) a = .ok (some (.acycEdge s0 t0 cond), a') ∧ a'.rest = nl ++ k := by
+  obtain ⟨hs, ht, hlc, hc⟩ := hw
+  simp only [fields, List.append_assoc] at hr
+  have es : addI s0 = addN s0.toNat := by rw [addN_eq]; congr 1; omega
+  have et : addI t0 = addN t0.toNat := by rw [addN_eq]; congr 1; omega
+  rw [es, et] at hr
+  obtain ⟨a1, h1, r1⟩ := posMax_addN (N I32MAX) s0.toNat (by have : N I32MAX = 2147483647 := rfl; omega) (by decide) a _ hr (sp_addN _ _)
+  obtain ⟨a2, h2, r2⟩ := posMax_addN (N I32MAX) t0.toNat (by have : N I32MAX = 2147483647 := rfl; omega) (by decide) a1 (addLits cond ++ (nl ++ k)) r1 (by unfold addLits; rw [List.append_assoc]; exact sp_addN _ _)
+  obtain ⟨a3, h3, r3⟩ := lits_enc cond hlc hc a2 _ r2 (sp_nl _)
+  refine ⟨a3, ?_, r3⟩
+  unfold directive
+  have n1 : ¬ (N Gen.Directive_t_Edge = N Gen.Directive_t_Rule) := by decide
+  have n2 : ¬ (N Gen.Directive_t_Edge = N Gen.Directive_t_Minimize) := by decide
+  have n3 : ¬ (N Gen.Directive_t_Edge = N Gen.Directive_t_Project) := by decide
+  have n4 : ¬ (N Gen.Directive_t_Edge = N Gen.Directive_t_Output) := by decide
+  have n5 : ¬ (N Gen.Directive_t_Edge = N Gen.Directive_t_External) := by decide
+  have n6 : ¬ (N Gen.Directive_t_Edge = N Gen.Directive_t_Assume) := by decide
+  have n7 : ¬ (N Gen.Directive_t_Edge = N Gen.Directive_t_Heuristic) := by decide
+  have hs' : ((s0.toNat : Nat) : Int) = s0 := by omega
+  have ht' : ((t0.toNat : Nat) : Int) = t0 := by omega
+  simp only [↓reduceIte, n1, n2, n3, n4, n5, n6, n7, h1, h2, h3, bind, Except.bind, pure, Except.pure, hs', ht']
+end PotasscoVerif.AspifRT
